@@ -358,7 +358,7 @@ class sptensor:
             # Squeeze to convert from column vector to row vector
             newvals = accumarray(
                 loc.flatten(),
-                np.squeeze(vals),
+                vals.reshape(-1),
                 size=newsubs.shape[0],
                 func=function_handle,
             )
